@@ -10,12 +10,22 @@
 (***************************************************************************)
 EXTENDS TraceLib, ToyGroup
 
-VARIABLES l, ev
-vars == <<l, ev>>
+VARIABLES l, ev,
+          okArr,   \* C33: senders that have delivered a genuine share in the current view
+          tseed    \* C33: id of the first seed derived in this trace (0 = none yet)
+vars == <<l, ev, okArr, tseed>>
 Null == [ev |-> "none"]
 
-TraceInit == l = 1 /\ ev = Null
-TraceStep == l <= Len(Trace) /\ l' = l + 1 /\ ev' = Trace[l]
+TraceInit == l = 1 /\ ev = Null /\ okArr = {} /\ tseed = 0
+TraceStep ==
+  /\ l <= Len(Trace) /\ l' = l + 1 /\ ev' = Trace[l]
+  /\ LET e == Trace[l] IN
+       /\ okArr' = CASE e.ev \in {"Reset", "VrfView"} -> {}
+                      [] e.ev = "VrfAdd" -> (IF e.kind = "ok" THEN okArr \cup {e.j} ELSE okArr)
+                      [] OTHER -> okArr
+       /\ tseed' = CASE e.ev = "Reset" -> 0
+                      [] e.ev = "VrfAdd" -> (IF e.has_seed /\ tseed = 0 THEN e.seed_id ELSE tseed)
+                      [] OTHER -> tseed
 TraceNext == TraceStep
 TraceSpec == TraceInit /\ [][TraceNext]_vars
 
@@ -80,4 +90,18 @@ HarnessThrShape == (IsDeal \/ IsCombine \/ IsSos) =>
     /\ (IsCombine => ev.k = Len(ev.seq) /\ ev.k >= 1 /\ ElemsOf(ev.seq) \subseteq TParties /\ Cardinality(ElemsOf(ev.seq)) = ev.k)
     /\ (IsDeal => Len(ev.valid) = ev.n /\ Len(ev.party_ok) = ev.n)
     /\ (IsSos => Len(ev.ent) = ev.n)
+
+(* ------------------------------------------------------------------ C33 *)
+(* One trace = one (DKG, round, timeout count, previous seed); a "view" is one miner (its own DKG object, a  *)
+(* fresh round object) receiving shares through the real miner.Chain.AddVRFShare: view A the arrival history *)
+(* enumerated by TLC from VRFSeed.tla, view B another miner receiving all genuine shares in reverse order.   *)
+(* kind "ok" is the only genuine share for the view's (round, timeout count).                                *)
+IsAdd == ev.ev = "VrfAdd"
+(* shares that fail verification are never counted; never more than T are kept *)
+C33_NeverCountInvalid == (IsAdd /\ ~IsKnown(ev)) => (ElemsOf(ev.stored) \subseteq okArr /\ Len(ev.stored) <= ev.t)
+(* fewer than T verified shares never produce a seed; T verified shares do *)
+C33_SeedIffThreshold == (IsAdd /\ ~IsKnown(ev)) => (ev.has_seed <=> Cardinality(okArr) >= ev.t)
+(* every view (subset, order, miner) of the same (round, timeout count, previous seed) derives the same seed *)
+C33_SameSeed == (IsAdd /\ ~IsKnown(ev) /\ ev.has_seed) => (ev.seed_id # 0 /\ ev.seed_id = tseed)
+HarnessVrfShape == IsAdd => (ev.t >= 1 /\ ev.t <= ev.n /\ ev.j \in 1..ev.n /\ ElemsOf(ev.stored) \subseteq 1..ev.n)
 =============================================================================
